@@ -1206,7 +1206,66 @@ def _x_sample_file():
     return None
 
 
+def _swapcase_strings(obj, depth=0):
+    """In place: every string reachable through attrs fields / lists / tuples of a scene is replaced by its swapcase()."""
+    import enum
+    import attrs
+    if isinstance(obj, list):
+        for i, v in enumerate(obj):
+            obj[i] = _swapped(v, depth)
+        return obj
+    if attrs.has(type(obj)):
+        for field in attrs.fields(type(obj)):
+            try:
+                v = getattr(obj, field.name)
+            except AttributeError:
+                continue
+            nv = _swapped(v, depth)
+            if nv is not v:
+                try:
+                    setattr(obj, field.name, nv)
+                except (AttributeError, TypeError, ValueError):
+                    pass
+    return obj
+
+
+def _swapped(v, depth):
+    import enum
+    import attrs
+    if isinstance(v, enum.Enum) or depth > 12:
+        return v
+    if isinstance(v, str):
+        return v.swapcase()
+    if isinstance(v, tuple) and v and all(isinstance(x, str) for x in v):
+        return tuple(x.swapcase() for x in v)
+    if isinstance(v, dict):
+        return v
+    if isinstance(v, list) or attrs.has(type(v)):
+        return _swapcase_strings(v, depth + 1)
+    return v
+
+
+def _x_image_case_variants():
+    """Scenes of one image whose strings differ only by letter case: each scene must read back with its own spelling."""
+    import random as _random
+    for name, make in TARGETED:
+        if name in ('empty',):
+            continue
+        try:
+            first, second = make(), _swapcase_strings(make())
+        except Exception as exc:
+            return f'{name}: building the case variant ' + _exc(exc)
+        if check_binary(second) is not None:
+            continue        # the swapped scene is not representable by itself (e.g. a keyword-like name): skip the pair
+        for version in (2, 3):
+            res = check_image([first, second], version, _random.Random(version))
+            if res is not None:
+                return f'{name} + its swapcase variant in one image v{version}: {res}'
+    return None
+
+
 EXTRA_CHECKS = [
+    ('image_case_variants', _x_image_case_variants),
     ('abs_tag_binary_read', _x_abs_tag_binary_read),
     ('abs_tag_setattr', _x_abs_tag_setattr),
     ('image_empty', _x_image_empty),
